@@ -75,6 +75,57 @@ theorem cheapest_step (budget acc c : Rat) (cs : List Rat) :
   simp only [decide_eq_true_eq]
   rw [add_comm acc c]
 
+
+/-! ### whole functions (statement-level leaves): initialisation, loop, return -/
+
+/-- the whole of `Instance.is_exhaustive`: `cost = total_cost(projects)`, the loop over the available projects with its early
+    `return False`, the final `return True` — nothing else happens in the function -/
+theorem isExhaustiveFn (I : Inst) (avail l : List Pid) :
+    I.isExhaustiveOver avail l =
+      Gen.C15.isExhaustiveFn (I.totalCost l) I.budget (avail.map (fun p => (l.contains p, I.cost p))) := by
+  unfold Gen.C15.isExhaustiveFn Inst.isExhaustiveOver
+  induction avail with
+  | nil => simp [Gen.C15.isExhaustiveFnLoop]
+  | cons p ps ih =>
+    simp only [List.map_cons, List.all_cons, Gen.C15.isExhaustiveFnLoop]
+    by_cases hc : l.contains p = true
+    · simp only [hc, Bool.not_true, Bool.false_and, Bool.true_or, Bool.true_and]
+      exact ih
+    · have hc' : l.contains p = false := by simpa using hc
+      have hm : p ∉ l := by simpa using hc'
+      by_cases hf : I.cost p + I.totalCost l ≤ I.budget
+      · simp [hm, hf]
+      · simp only [hc', hf, Bool.not_false, Bool.true_and, decide_false, Bool.false_or, Bool.not_false]
+        exact ih
+
+private theorem maxCardLoop_snd (budget : Rat) : ∀ (cs : List Rat) (acc sel : Rat),
+    (Gen.C15.maxCardFnLoop budget acc sel cs).2 = sel + (cheapestCount budget acc cs : Rat)
+  | [], acc, sel => by simp [Gen.C15.maxCardFnLoop, cheapestCount]
+  | c :: cs, acc, sel => by
+    rw [Gen.C15.maxCardFnLoop, cheapestCount]
+    by_cases h : acc + c > budget
+    · have h' : c + acc > budget := by rwa [add_comm]
+      simp [h, h']
+    · have h' : ¬ c + acc > budget := by rwa [add_comm]
+      simp only [h, h', decide_false, if_false, Bool.false_eq_true]
+      rw [maxCardLoop_snd budget cs (c + acc) (sel + 1), add_comm c acc]
+      push_cast
+      ring
+
+/-- the whole of `max_budget_allocation_cardinality` after the sort: both counters start at 0, the loop stops at the first
+    project that does not fit, the number of projects passed is returned -/
+theorem maxCardFn (cost : Pid → Rat) (l : List Pid) (budget : Rat) :
+    (maxCardinality cost l budget : Rat) = Gen.C15.maxCardFn budget (sortKey id (l.map cost)) := by
+  unfold maxCardinality Gen.C15.maxCardFn
+  beta_reduce
+  rw [maxCardLoop_snd]
+  simp
+
+/-- the statement-level leaves on a concrete instance: budget 4, costs 1, 2, 3 — {1, 2} is exhaustive, {1} is not, two projects fit -/
+example : Gen.C15.isExhaustiveFn 3 4 [(true, 1), (true, 2), (false, 3)] = true ∧
+    Gen.C15.isExhaustiveFn 1 4 [(true, 1), (false, 2), (false, 3)] = false ∧ Gen.C15.maxCardFn 4 [1, 2, 3] = 2 := by
+  refine ⟨?_, ?_, ?_⟩ <;> norm_num [Gen.C15.isExhaustiveFn, Gen.C15.isExhaustiveFnLoop, Gen.C15.maxCardFn, Gen.C15.maxCardFnLoop]
+
 /-- a concrete non-trivial instance: budget 2, costs 1 and 3 -/
 example :
     Gen.C15.isTrivial (1 + 3) 2 ([1, 3].all (fun c => Gen.C15.singleDoesNotFit 2 c)) = false := by
